@@ -135,7 +135,7 @@ def run(ctx):
                 r.ok(rule, 'x509:nonce-arg', 'the token signature is verified against the server_nonce parameter', loc=va[0].loc)
             else:
                 r.fail(rule, 'x509:nonce-arg', 'the X.509 token signature is not bound to the server nonce', loc=b.loc)
-        cl = db.find_bodies(SS + r'authenticate_x509_identity_token::\{closure#\d+\}$')
+        cl = db.find_bodies(SS + r'authenticate_x509_identity_token(::\{closure#\d+\})*$')
         done = False
         for cb in cl:
             Fc = ctx.facts(cb)
